@@ -26,6 +26,7 @@ import TfelVerif.C41.Spec
 import Mathlib.Tactic.FieldSimp
 import Mathlib.Tactic.Ring
 import Mathlib.Tactic.NormNum
+import Mathlib.Tactic.LinearCombination
 
 namespace TfelVerif.C41
 open TfelVerif TfelVerif.C41.GenI
@@ -35,16 +36,16 @@ set_option linter.unusedSectionVars false
 variable {K : Type} [Field K] (c c3 : K) (fn : Fns K)
 
 /-- the Norton coefficient of the source, `const real A = 8.e-67` (the double nearest to it) -/
-def nortonA : K := (6070840288205403 : K) / 2 ^ 272
+def nortonA : K := (6070840288205403 : K) / 7588550360256754183279148073529370729071901715047420004889892225542594864082845696  -- / 2^272
 /-- the exponent `E - 1.` of the source (`const real E = 8.2`), as computed on doubles -/
-def nortonEm1 : K := (2026619832316723 : K) / 2 ^ 48
+def nortonEm1 : K := (2026619832316723 : K) / 281474976710656  -- / 2^48
 /-- `real(1.e-12)` -/
-def tiny : K := (4951760157141521 : K) / 2 ^ 92
+def tiny : K := (4951760157141521 : K) / 4951760157141521099596496896  -- / 2^92
 
 local macro "i_close" : tactic =>
   `(tactic| (simp only [gen_simp, hooke, dev, sq, lam, mu, nortonA, nortonEm1, tiny, List.map, List.sum_cons, List.sum_nil,
       List.cons.injEq, and_true, List.getD_cons_zero, List.getD_cons_succ]
-             <;> (repeat' apply And.intro) <;> (first | rfl | ring1 | (norm_num; ring1))))
+             ; all_goals (repeat' apply And.intro) ; all_goals (first | rfl | ring1 | (norm_num; ring1))))
 
 /-! ## Tridimensional -/
 section D3
@@ -60,7 +61,7 @@ theorem IN_3D_step_seq : IN_3D_step_fn0_a c c3 fn i = 3 / 2 * sq (dev (sigm3 i))
 
 theorem IN_3D_step_max :
     IN_3D_step_fn2 c c3 fn i = fn.max (IN_3D_step_fn0 c c3 fn i) (tiny * i.young) := by
-  simp only [gen_simp, tiny]; norm_num
+  simp only [gen_simp, tiny]
 
 theorem IN_3D_step_residual :
     let seq := IN_3D_step_fn0 c c3 fn i
@@ -71,7 +72,8 @@ theorem IN_3D_step_residual :
        i.deel2 + i.dp * (3 / 2 * s.getD 2 0 / M) - i.deto2, i.deel3 + i.dp * (3 / 2 * s.getD 3 0 / M) - i.deto3,
        i.deel4 + i.dp * (3 / 2 * s.getD 4 0 / M) - i.deto4, i.deel5 + i.dp * (3 / 2 * s.getD 5 0 / M) - i.deto5,
        i.dp - nortonA * fn.pow seq nortonEm1 * seq * i.dt] := by
-  simp only [sigm3]; i_close
+  intro seq M s
+  simp only [seq, M, s, sigm3]; i_close
 
 theorem IN_3D_step_update :
     IN_3D_step_isv_list c c3 fn i =
@@ -82,11 +84,72 @@ theorem IN_3D_step_update :
 
 end D3
 
+/-- the quantity under the square root of the convergence test is the sum of the squares of the residual -/
+theorem IN_3D_step_norm (i : IN_3D_step_In K) :
+    IN_3D_step_fn3_a c c3 fn i = sq (IN_3D_step_F_list c c3 fn i) := by
+  simp only [gen_simp, sq, List.map, List.sum_cons, List.sum_nil]; ring1
+
 theorem IN_3D_step_accept [LT K] (i : IN_3D_step_In K) (h : IN_3D_step_path c c3 fn i) :
-    fn.sqrt (sq (IN_3D_step_F_list c c3 fn i)) / 7 < i.epsilon ∧ ¬ (i.p + i.dp < 0) := by
+    IN_3D_step_fn3 c c3 fn i / 7 < i.epsilon ∧ ¬ (i.p + i.dp < 0) := by
   have h' := h
   simp only [IN_3D_step_path] at h'
-  simp only [gen_simp, sq, List.map, List.sum_cons, List.sum_nil, add_zero]
+  simp only [gen_simp]
   exact ⟨h'.2, h'.1⟩
+
+/-! ## Plane stress: the axial total strain `etozz` is a state variable, its increment an extra unknown, and the
+extra equation is `σ_zz(t + dt) / young = 0` (source: `@Integrator<PlaneStress,Append,AtEnd>`) -/
+section PS
+variable (i : IN_PSTRESS_step_In K)
+
+def sigmPS : List K := hooke (lam i.young i.nu) (mu i.young i.nu)
+  [i.eel0 + i.theta * i.deel0, i.eel1 + i.theta * i.deel1, i.eel2 + i.theta * i.deel2, i.eel3 + i.theta * i.deel3]
+
+theorem IN_PSTRESS_step_seq : IN_PSTRESS_step_fn0_a c c3 fn i = 3 / 2 * sq (dev (sigmPS i)) := by
+  simp only [sigmPS]; i_close
+
+theorem IN_PSTRESS_step_max :
+    IN_PSTRESS_step_fn2 c c3 fn i = fn.max (IN_PSTRESS_step_fn0 c c3 fn i) (tiny * i.young) := by
+  simp only [gen_simp, tiny]
+
+theorem IN_PSTRESS_step_residual :
+    let seq := IN_PSTRESS_step_fn0 c c3 fn i
+    let M := IN_PSTRESS_step_fn2 c c3 fn i
+    let s := dev (sigmPS i)
+    let sigzz1 := (hooke (lam i.young i.nu) (mu i.young i.nu)
+      [i.eel0 + i.deel0, i.eel1 + i.deel1, i.eel2 + i.deel2, i.eel3 + i.deel3]).getD 2 0
+    IN_PSTRESS_step_F_list c c3 fn i =
+      [i.deel0 + i.dp * (3 / 2 * s.getD 0 0 / M) - i.deto0, i.deel1 + i.dp * (3 / 2 * s.getD 1 0 / M) - i.deto1,
+       i.deel2 + i.dp * (3 / 2 * s.getD 2 0 / M) - i.deto2 - i.detozz, i.deel3 + i.dp * (3 / 2 * s.getD 3 0 / M) - i.deto3,
+       i.dp - nortonA * fn.pow seq nortonEm1 * seq * i.dt,
+       sigzz1 / i.young] := by
+  intro seq M s sigzz1
+  simp only [seq, M, s, sigzz1, sigmPS]; i_close
+
+theorem IN_PSTRESS_step_update :
+    IN_PSTRESS_step_isv_list c c3 fn i =
+      [i.eel0 + i.deel0, i.eel1 + i.deel1, i.eel2 + i.deel2, i.eel3 + i.deel3, i.p + i.dp, i.etozz + i.detozz]
+    ∧ IN_PSTRESS_step_sig_list c c3 fn i = hooke (lam i.young i.nu) (mu i.young i.nu)
+      [i.eel0 + i.deel0, i.eel1 + i.deel1, i.eel2 + i.deel2, i.eel3 + i.deel3] := by
+  constructor <;> i_close
+
+theorem IN_PSTRESS_step_norm :
+    IN_PSTRESS_step_fn3_a c c3 fn i = sq (IN_PSTRESS_step_F_list c c3 fn i) := by
+  simp only [gen_simp, sq, List.map, List.sum_cons, List.sum_nil]; ring1
+
+end PS
+
+theorem IN_PSTRESS_step_accept [LT K] (i : IN_PSTRESS_step_In K) (h : IN_PSTRESS_step_path c c3 fn i) :
+    IN_PSTRESS_step_fn3 c c3 fn i / 6 < i.epsilon ∧ ¬ (i.p + i.dp < 0) := by
+  have h' := h
+  simp only [IN_PSTRESS_step_path] at h'
+  simp only [gen_simp]
+  exact ⟨h'.2, h'.1⟩
+
+/-- plane stress, consequence: when the extra equation holds exactly the returned stress has `σ_zz = 0` -/
+theorem IN_PSTRESS_step_sigzz (i : IN_PSTRESS_step_In K) (hy : i.young ≠ 0)
+    (h : IN_PSTRESS_step_F5 c c3 fn i = 0) : IN_PSTRESS_step_sig2 c c3 fn i = 0 := by
+  simp only [gen_simp] at h ⊢
+  have := (div_eq_zero_iff.mp h).resolve_right hy
+  linear_combination this
 
 end TfelVerif.C41
